@@ -61,6 +61,13 @@ inductive SExpr
   | gen (body : SExpr) (v : String) (iter : SExpr)
   /-- `e[i]` -/
   | index (e i : SExpr)
+  /-- `for v in iter: acc = body` (a loop whose body is one plain assignment): the value of `acc`
+  after the loop, i.e. the left fold of `fun acc v => body` over `iter` starting from `init`
+  (inside `body` the accumulator is `var acc`, the loop variable(s) `var v`) -/
+  | fold (body : SExpr) (acc : String) (v : String) (iter init : SExpr)
+  /-- the local array `a` after the item assignment `a[idx] = v` (only emitted for a local that
+  holds the result of an arithmetic expression and that no other name can alias) -/
+  | setitem (a idx v : SExpr)
   /-- the path ends in `raise` -/
   | raise
   /-- fail closed: a shape the translator does not represent -/
